@@ -530,8 +530,8 @@ static void DecodeMOVE(Word Index) {
         do {
             GetToken(&ArgStr[1], &Parts[PartCnt++]);
         } while ((*ArgStr[1].str.p_str != '\0') && (PartCnt < MAXPARTS));
-        if ((PartCnt > 1) && (!as_strcasecmp(Parts[PartCnt - 1].str.p_str, "CARRY"))
-            && (!as_strcasecmp(Parts[PartCnt - 1].str.p_str, "TO"))) {
+        if ((PartCnt > 2) && (!as_strcasecmp(Parts[PartCnt - 1].str.p_str, "CARRY"))
+            && (!as_strcasecmp(Parts[PartCnt - 2].str.p_str, "WITH"))) {
             WithCarry = True;
             PartCnt -= 2;
         } else {
